@@ -274,6 +274,7 @@ func (ii *InstInfo) addCodecContracts(p *Program, cs *ContractSet, prop string) 
 			}
 		}
 	}
+	ii.addWrapperContracts(cs, prop, all, add)
 	ii.addDefaultCtorContracts(cs, prop, all, add)
 	ii.addEncodeContracts(p, cs, prop, all, add)
 	if ii.funcs == 0 {
@@ -974,4 +975,126 @@ func (ii *InstInfo) addFromWirePresence(f *ssa.Function, fields []schemaField, c
 		}
 	}
 	return n
+}
+
+// addWrapperContracts: the ValueList / MapItemList views that ToWire wraps
+// containers in (named slice / map types with ValueType, KeyType, Size,
+// ForEach). Expected type codes come from the Go element types where these are
+// unambiguous (scalars, strings, byte slices, struct pointers). ForEach: the
+// callback receives, for the element at the current index, a wire value of the
+// element's type carrying the element's value (obligation at the call).
+func (ii *InstInfo) addWrapperContracts(cs *ContractSet, prop string, all []*ssa.Function, add func(*Contract)) {
+	scalarK := func(t types.Type) string {
+		if t == nil {
+			return ""
+		}
+		switch tt := t.Underlying().(type) {
+		case *types.Basic:
+			switch tt.Kind() {
+			case types.Bool:
+				return "bool"
+			case types.Int8:
+				return "i8"
+			case types.Int16:
+				return "i16"
+			case types.Int32:
+				return "i32"
+			case types.Int64:
+				return "i64"
+			case types.Float64:
+				return "double"
+			case types.String:
+				return "string"
+			}
+		case *types.Slice:
+			if b, ok := tt.Elem().Underlying().(*types.Basic); ok && b.Kind() == types.Uint8 {
+				return "binary"
+			}
+		}
+		return ""
+	}
+	for _, f := range all {
+		if f.Signature.Recv() == nil || len(f.Params) == 0 {
+			continue
+		}
+		named, ok := f.Signature.Recv().Type().(*types.Named)
+		if !ok || !(strings.HasSuffix(named.Obj().Name(), "_ValueList") || strings.HasSuffix(named.Obj().Name(), "_MapItemList")) {
+			continue
+		}
+		recv := f.Params[0].Name()
+		var elem, key, val types.Type
+		switch tt := named.Underlying().(type) {
+		case *types.Slice:
+			elem = tt.Elem()
+			if k, v := pairTypes(named.Underlying()); k != nil && strings.HasSuffix(named.Obj().Name(), "_MapItemList") {
+				key, val, elem = k, v, nil
+			}
+		case *types.Map:
+			if strings.HasSuffix(named.Obj().Name(), "_MapItemList") {
+				key, val = tt.Key(), tt.Elem()
+			} else {
+				elem = tt.Key()
+			}
+		}
+		ct := newContract(f, prop)
+		switch f.Name() {
+		case "Size":
+			if recv == "" || f.Signature.Results().Len() != 1 {
+				continue
+			}
+			ct.Pure = true
+			ct.Ensures = append(ct.Ensures, cl("ensures", "size", fmt.Sprintf("result == len(%s)", recv)))
+			add(ct)
+		case "ValueType":
+			t := elem
+			if val != nil {
+				t = val
+			}
+			if code := goWireCode(t); code != 0 {
+				ct.Pure = true
+				ct.Ensures = append(ct.Ensures, cl("ensures", "code", fmt.Sprintf("int8(result) == %d", code)))
+				add(ct)
+			}
+		case "KeyType":
+			if code := goWireCode(key); code != 0 {
+				ct.Pure = true
+				ct.Ensures = append(ct.Ensures, cl("ensures", "code", fmt.Sprintf("int8(result) == %d", code)))
+				add(ct)
+			}
+		case "ForEach":
+			_, isSlice := named.Underlying().(*types.Slice)
+			k := scalarK(elem)
+			if isSlice && k == "" && goWireCode(elem) == 12 && len(f.Params) == 2 && recv != "" && len(findLoops(f)) == 1 {
+				// list / set of structs: every element is converted with its own ToWire (a wire
+				// struct) and a nil element is an error
+				pc := newContract(f, prop)
+				pc.Func = f.String() + "." + f.Params[1].Name()
+				pc.Requires = append(pc.Requires, cl("requires", "type", "arg0.typ == 12"))
+				pc.Modifies = append(pc.Modifies, cl("modifies", "", "all"))
+				pc.Ensures = append(pc.Ensures, cl("ensures", "", fmt.Sprintf("arrayof(%s) == old(arrayof(%s))", recv, recv)))
+				cs.Field[pc.Func] = pc
+				ct.Modifies = append(ct.Modifies, cl("modifies", "", "all"))
+				ct.Lets = append(ct.Lets, cl("let", "", "a0 = arrayof("+recv+")"))
+				ct.LoopInv[1] = []*Clause{cl("invariant", "", fmt.Sprintf("ridx >= -1 && ridx < len(%s) && arrayof(%s) == a0 && forall(j, 0, ridx + 1, %s[j] != nil)", recv, recv, recv))}
+				ct.Ensures = append(ct.Ensures, cl("ensures", "nonnil", fmt.Sprintf("err == nil ==> forall(j, 0, len(%s), old(%s[j]) != nil)", recv, recv)))
+				add(ct)
+				continue
+			}
+			if !isSlice || k == "" || len(f.Params) != 2 || recv == "" || len(findLoops(f)) != 1 {
+				continue
+			}
+			// callback: element at the current index, as a wire value of the element's type
+			pc := newContract(f, prop)
+			pc.Func = f.String() + "." + f.Params[1].Name()
+			pc.Requires = append(pc.Requires,
+				cl("requires", "type", fmt.Sprintf("arg0.typ == %d", goWireCode(elem))),
+				cl("requires", "value", scalarContent(k, "arg0", recv+"[ridx]")))
+			pc.Modifies = append(pc.Modifies, cl("modifies", "", "all"))
+			cs.Field[pc.Func] = pc
+			ct.Modifies = append(ct.Modifies, cl("modifies", "", "all"))
+			ct.LoopInv[1] = []*Clause{cl("invariant", "", fmt.Sprintf("ridx >= -1 && ridx < len(%s)", recv))}
+			ct.ErrsFromCallees = true
+			add(ct)
+		}
+	}
 }
